@@ -77,6 +77,15 @@ impl<S: Read + Write> Stream<S> {
         Ok(buffer.len())
     }
 
+    /// Number of bytes already received and decrypted
+    /// that the next read will return without touching the socket
+    pub fn pending(&self) -> usize {
+        match self {
+            Stream::Ssl(e) => e.buffered_read_size().unwrap_or(0),
+            _ => 0
+        }
+    }
+
     /// Shutdown the stream
     /// Only works when stream is a SSL stream
     pub fn shutdown(&mut self) -> RdpResult<()> {
@@ -207,6 +216,11 @@ impl<S: Read + Write> Link<S> {
         else {
             Err(Error::RdpError(RdpError::new(RdpErrorKind::InvalidData, "get peer certificate on non ssl link is impossible")))
         }
+    }
+
+    /// Bytes the next read will return without waiting for the peer
+    pub fn pending(&self) -> usize {
+        self.stream.pending()
     }
 
     /// Close the stream
